@@ -60,6 +60,9 @@ PLUGINS = ["ariadne_codegen.contrib.client_forward_refs.ClientForwardRefsPlugin"
            "ariadne_codegen.contrib.extract_operations.ExtractOperationsPlugin"]
 
 
+LISTING = {0: "sorted", 1: "reverse", 2: "rotate", 3: "swapcase"}
+
+
 def inputs():
     split_schema = {"b/types.graphql": "type Item { id: ID! n: Name c: Color }\n", "a/enums.graphqls": "enum Color { RED GREEN }\n",
                     "root.gql": "scalar Name\ntype Query { item(id: ID!): Item items: [Item!]! }\n"}
@@ -74,6 +77,16 @@ def inputs():
         ("schema_strategy", "graphqlschema", dict(schema=gamma.SDL, queries=None, options={"target_file_path": "out_schema.py"})),
         ("schema_strategy_sdl", "graphqlschema", dict(schema=split_schema, queries=None, options={"target_file_path": "out_schema.graphql"})),
         ("split_files", "client", dict(schema=split_schema, queries=split_queries, options={"include_comments": "stable"})),
+        # names that differ only in letter case / are prefixes of each other: legal on a case-sensitive file system
+        ("case_names", "client", dict(schema={"Types.graphql": "type Item { id: ID! c: Color s: Size }\n", "types.graphql": "enum Color { RED GREEN }\n",
+                                              "TYPES.graphql": "enum Size { S M }\ninput Flt { c: Color s: Size }\n",
+                                              "Sub/x.graphql": "input Page { n: Int }\n", "sub/x.graphql": "type Query { items(f: Flt, p: Page): [Item!]! }\n"},
+                                      queries={"Get.graphql": "query GetUpper { items { id c } }\n", "get.graphql": "query GetLower($f: Flt) { items(f: $f) { id s } }\n",
+                                               "get.gql": "query GetGql($p: Page) { items(p: $p) { id } }\n"},
+                                      options={"include_comments": "stable"})),
+        ("case_names_schema", "graphqlschema", dict(schema={"Types.graphql": "type Item { id: ID! c: Color }\n", "types.graphql": "enum Color { RED GREEN }\n",
+                                                            "Sub/x.graphql": "input Page { n: Int }\n", "sub/x.graphql": "type Query { items(p: Page): [Item!]! }\n"},
+                                             queries=None, options={"target_file_path": "out_schema.py"})),
     ]
 
 
@@ -155,7 +168,8 @@ def run(tier, work, replay=None):
                 for p in ("schema", "queries"):
                     shutil.rmtree(job / p, ignore_errors=True)
             opts = make(job, spec, order, strategy)
-            r = generate(job, strategy, hashseed=sd)
+            # the directory listing order follows the creation order (made explicit: see drive_gen.install_listing)
+            r = generate(job, strategy, hashseed=sd, env={"VERIF_LISTING": LISTING[order]})
             d = digest(job, strategy, opts) if r["exc_class"] is None else {"@error": r["exc_class"] + ": " + (r["exc_msg"] or "")[:200]}
             runs.append({"seed": sd, "order": order, "target": target, "files": d,
                          "digest": hashlib.sha256(json.dumps(d, sort_keys=True).encode()).hexdigest()})
